@@ -1,12 +1,19 @@
 ENGINES = [
     {"name": "build", "path": "/verif/bin/check", "serves_properties": [],
      "kind_free_text": "build layer: libflux stand-in + -modfile + -overlay (virtual harness packages), shard runner, evidence merger, known-findings filter, replay confirmation"},
-    {"name": "bubble", "path": "/verif/harness/kit", "serves_properties": ["C03"],
+    {"name": "bubble", "path": "/verif/harness/kit", "serves_properties": ["C01", "C03"],
      "kind_free_text": "real TaskMaster pipelines executed deterministically in testing/synctest bubbles (virtual time, quiescence detection); |log() nodes as in-process sinks"},
 ]
 NOTES = "All checks rebuild from /repo's current working tree. Exit 2 = internal error of the machinery (never a verdict)."
 NOT_APPLICABLE = {}
 META = {
+    "C01": {
+        "engine": "bubble + explicit-state search",
+        "design_ref": "DESIGN.md section 3 C01",
+        "technique": "explicit-state model checking: BFS over the reference alert state machine to closure, every (state, input) transition replayed on the real alert node + exhaustive fixed-length input sequences; reference state machine as oracle",
+        "level_text": "For every alert() configuration the reference state machine is searched breadth-first to closure; for every reachable (state, input) transition the shortest input path plus that input is executed on a real task (real alert node, alert service, topic, handler) and every step is compared (event presence, level, time, duration, previous level, forwarded fields). In addition all input sequences up to a length bound are run. The evidence reports uncovered model transitions (must be 0).",
+        "level_note": "Trusted: Go runtime/synctest, harness handler and |log() sink, independence of alert IDs (C06). The abstract state drops absolute times (translation invariance). Flapping is only partially specified, see assumptions in the evidence. stateChangesOnly interval boundary (exactly equal) not enumerated.",
+    },
     "C03": {
         "engine": "bubble + explicit-state search",
         "design_ref": "DESIGN.md section 3 C03",
